@@ -276,8 +276,9 @@ def specFaces (h : Net) (minSize : Nat) (excl : Bool) : List (PyId × List PyId)
 
 /-- number of node sets of size ≥ min_size inside some eligible maximal edge that are not edges -/
 def specSED (h : Net) (minSize : Nat) (excl : Bool) : Nat :=
+  let faces := specFaces h minSize excl
   ((subsets h.nodes).filter (fun t => decide (minSize ≤ t.length)
-      && (specFaces h minSize excl).any (fun p => isSub t p.2) && !isEdge h t)).length
+      && faces.any (fun p => isSub t p.2) && !isEdge h t)).length
 
 /-- the normalised distance as the paper defines it from the count: ms / (|E≥min| − |maximal eligible| + ms) -/
 def specSEDNorm (h : Net) (minSize : Nat) (excl : Bool) : Score :=
